@@ -220,6 +220,8 @@ package decoder
 //@   props C06 C11 C12
 //@   trusted interface contract: implementations under contract are verified against their own, stronger contracts; the others (reflection-driven decoders) are assumed to satisfy it
 //@   requires ctx != nil && bufOK(ctx.Buf, cursor)
+// the destination (dsize(d) bytes at p) is an object of the caller, never part of the private input copy
+//@   requires dstApart(p, dsize(dataOf(d)), ctx.Buf)
 // assumed of every implementation: on success the cursor stays inside the buffer and the terminator is still there
 //@   ensures err == nil ==> cursor < c && c < len(old(ctx.Buf)) && M(ptrOf(old(ctx.Buf)) + len(old(ctx.Buf)) - 1) == 0
 //@   ensures ctx.Buf == old(ctx.Buf)
@@ -412,6 +414,9 @@ package decoder
 // ---------------------------------------------------------------- decoding touches only the destination (C07)
 // rsize(t): the size in bytes of runtime type t (uninterpreted; tied to the decoder structs by their invariants)
 //@ ufun rsize(Int) Int
+// dsize(d): number of destination bytes decoder d may write directly (ghost attribute of a decoder value)
+//@ ufun dsize(Int) Int
+//@ spec dstApart(p, n, b) := p + n <= ptrOf(b) || ptrOf(b) + len(b) <= p
 // initcap: capacity of the scratch slice obtained from the pool (a ghost constant of one Decode call)
 //@ spec hdrSame(p) := cast(p, sliceHeader).data == old(cast(p, sliceHeader).data) && cast(p, sliceHeader).len == old(cast(p, sliceHeader).len) && cast(p, sliceHeader).cap == old(cast(p, sliceHeader).cap)
 //@ spec initcap := u0()
@@ -435,7 +440,9 @@ package decoder
 //@   props C07 C06
 //@   requires d != nil && ctx != nil && bufOK(ctx.Buf, cursor)
 //@   requires d.alen >= 0 && d.size >= 1 && d.size == rsize(d.elemType) && d.alen * d.size < 140737488355328
-//@   requires region(p, d.alen * d.size)
+//@   requires region(p, d.alen * d.size) && dstApart(p, d.alen * d.size, ctx.Buf)
+// struct invariant (established by the constructor from reflection data): the element decoder writes one element
+//@   requires dsize(dataOf(d.valueDecoder)) == d.size
 //@   callassert[C07] Decode: within(arg4, d.size, p, d.alen * d.size)
 // decoders are immutable after construction: the element decoder does not modify this array decoder
 //@   postassume Decode: d.alen == old(d.alen) && d.size == old(d.size) && d.elemType == old(d.elemType) && d.valueDecoder == old(d.valueDecoder) && d.zeroValue == old(d.zeroValue)
@@ -444,7 +451,7 @@ package decoder
 //@   loop 1: invariant old(cursor) <= cursor && cursor < len(buf) && buf[len(buf)-1] == 0 && buf == old(ctx.Buf)
 //@   loop 2: invariant 0 <= idx
 //@   loop 3: invariant 0 <= idx && idx <= cursor && old(cursor) <= cursor && cursor < len(buf) && buf[len(buf)-1] == 0 && buf == old(ctx.Buf) && ctx.Buf == old(ctx.Buf)
-//@   loop 3: invariant d.alen == old(d.alen) && d.size == old(d.size) && d.elemType == old(d.elemType)
+//@   loop 3: invariant d.alen == old(d.alen) && d.size == old(d.size) && d.elemType == old(d.elemType) && d.valueDecoder == old(d.valueDecoder)
 //@   loop 4: invariant 0 <= idx && d.alen == old(d.alen) && d.size == old(d.size) && d.elemType == old(d.elemType)
 
 //@ func newArray(t, n) (p)
@@ -480,6 +487,7 @@ package decoder
 //@   props C07 C06
 //@   requires d != nil && ctx != nil && bufOK(ctx.Buf, cursor)
 //@   requires d.size >= 1 && d.size < 1048576 && d.size == rsize(d.elemType) && (d.isElemPointerType ==> d.size == 8)
+//@   requires dsize(dataOf(d.valueDecoder)) == d.size && dstApart(p, 24, ctx.Buf)
 // resource bound: the input is shorter than 4 GiB (keeps idx*size far from overflow)
 //@   requires len(ctx.Buf) < 4294967296
 //@   requires p != nil && region(p, 24)
@@ -502,4 +510,29 @@ package decoder
 //@   loop 2: invariant region(data, capacity * d.size)
 //@   loop 2: invariant hdrSame(p)
 //@   loop 2: invariant data + capacity * d.size <= ptrOf(buf) || ptrOf(buf) + len(buf) <= data
-//@   loop 2: invariant d.size == old(d.size) && d.elemType == old(d.elemType) && d.isElemPointerType == old(d.isElemPointerType)
+//@   loop 2: invariant d.size == old(d.size) && d.elemType == old(d.elemType) && d.isElemPointerType == old(d.isElemPointerType) && d.valueDecoder == old(d.valueDecoder)
+
+//@ func (*ptrDecoder).Decode(d, ctx, cursor, depth, p) (c, err)
+//@   props C07 C06
+//@   requires d != nil && ctx != nil && bufOK(ctx.Buf, cursor)
+//@   requires p != nil && region(p, 8) && dstApart(p, 8, ctx.Buf)
+// the pointee is an object of its own: it does not overlap the input copy either
+//@   callassume Decode: dstApart(newptr, dsize(dataOf(d.dec)), ctx.Buf)
+// the element decoder is given either the pointer already stored in the destination or a fresh object
+//@   callassert[C07] Decode: arg4 != nil
+//@   ensures err == nil ==> cursor < c && c < len(old(ctx.Buf))
+//@   assigns all
+
+//@ func (*boolDecoder).Decode(d, ctx, cursor, depth, p) (c, err)
+//@   props C07 C06 C05
+//@   requires ctx != nil && bufOK(ctx.Buf, cursor)
+//@   requires region(p, 1) && dstApart(p, 1, ctx.Buf)
+//@   ensures err == nil ==> cursor < c && c < len(ctx.Buf)
+//@   assigns M
+
+//@ func (*stringDecoder).Decode(d, ctx, cursor, depth, p) (c, err)
+//@   props C07 C06
+//@   requires d != nil && ctx != nil && bufOK(ctx.Buf, cursor)
+//@   requires region(p, 16) && dstApart(p, 16, ctx.Buf)
+//@   ensures err == nil ==> cursor < c && c < len(ctx.Buf)
+//@   assigns M, class T:string.ptr, class T:int.len
